@@ -33,7 +33,8 @@ RULE = ("a case = one cell (route in {EphemeralOnionService.create, EphemeralAut
         "Tor.create_onion_service} x version {2,3} x key {none, DISCARD, bare blob, type-prefixed blob, 5 CR/LF placements} "
         "x detach x single-hop x auth {none | AuthBasic with 0..3 clients with/without tokens} x 13 port lists of 1-4 mappings "
         "(int, (int,int), (int,'unix:/..'), (int,'ip:port'), 'N ip:port' string, 'N unix:/..' string; three lists put 2-3 mappings on ONE "
-        "public port) x await_all_uploads; every DISCARD cell additionally against an OUT-OF-SPEC server that sends PrivateKey= despite "
+        "public port) x await_all_uploads; plus 10 unix-socket paths with braces / percent signs / other file-name punctuation x 3 port forms x route x version x "
+        "key {none, DISCARD, bare, prefixed}; every DISCARD cell additionally against an OUT-OF-SPEC server that sends PrivateKey= despite "
         "DiscardPK (tagged input class)), "
         "create() then HS_DESC UPLOAD/UPLOADED for the service then remove(); plus histories of 2-3 creations on ONE connection and "
         "TorConfig that re-use the caller's request objects (the same ports list, AuthBasic instance and key string): two / three live "
@@ -42,6 +43,9 @@ RULE = ("a case = one cell (route in {EphemeralOnionService.create, EphemeralAut
         "Non-trivial = the ADD_ONION line was decoded and compared (or, for CR/LF keys, the absence of any "
         "ADD_ONION/foreign line was checked).")
 ASSUMPTIONS = [
+    "cells with unix-path-has-braces / -percent / -other-punctuation: the unix-socket target of a mapping (pair or string form) is a path "
+    "containing '{' '}' '%' or other punctuation that is legal in file names (no space, no comma, no line break); 'correspond exactly' "
+    "means the Port= entry carries that path character for character",
     "tagged server-variant input classes: opaque-caller-keys (the reference Tor accepts an undecodable caller KeyBlob verbatim, so that blobs "
     "whose first characters occur in 'RSA1024:' / 'ED25519-V3:' can be supplied; create() of an authenticated v2 service cannot complete there "
     "and is not judged) and auth-service-id-not-derived-from-key (the ServiceID returned for a BasicAuth service is not the hash of its key; "
@@ -93,11 +97,13 @@ FLOORS = {
     "quick": {"evaluations": 1500, "add_onion_decoded": 800, "del_onion_decoded": 600, "custody_snapshots": 3000,
               "crlf_cells_checked": 500, "hostname_compared": 600, "generated_key_retention_checked": 150,
               "history_creations": 120, "request_objects_compared": 300, "caller_mutated_arguments_after_call": 20, "async_port_lookup_turns": 5, "remove_calls_failed": 5,
+              "unix_path_punctuation_cells": 60, "unix_path_punctuation_cells_compared": 60,
               "reach:txtorcon.onion:_add_ephemeral_service": 1000,
               "reach:txtorcon.onion:_validate_single_port_string": 1500},
     "thorough": {"evaluations": 3000, "add_onion_decoded": 2000, "del_onion_decoded": 1500, "custody_snapshots": 6000,
                  "crlf_cells_checked": 800, "hostname_compared": 1500, "generated_key_retention_checked": 300,
                  "random_cells": 1000, "history_creations": 120, "request_objects_compared": 300,
+                 "unix_path_punctuation_cells": 60, "unix_path_punctuation_cells_compared": 60,
                  "reach:txtorcon.onion:_add_ephemeral_service": 2000},
 }
 
@@ -138,6 +144,56 @@ TUPLE_PORT_LISTS = {
     "pair+pair-unix": [[22, 2222], [80, "unix:/tmp/w.sock"]], "str+str": ["80 127.0.0.1:8080", "81 unix:/run/x.sock"],
     "int+pair+str": [80, [81, 8081], "82 127.0.0.1:8082"], "int+int+int": [80, 443, 8080],
 }
+
+
+# unix-socket target paths with characters that are ordinary in file names but special to text templating
+# (str.format braces, %-formatting, shell-ish punctuation): the Port= entry must carry the path exactly as requested
+PUNCT_UNIX_PATHS = (
+    "/run/{site}/web.sock",            # braces around a name
+    "/run/{}/web.sock",                # empty braces
+    "/srv/{0}/web.sock",               # braces around a number
+    "/srv/{{blue}}/web.sock",          # doubled braces
+    "/tmp/a{b.sock",                   # lone opening brace
+    "/tmp/a}b.sock",                   # lone closing brace
+    "/var/{0!r:>8}/{x[0].y}.sock",     # braces with '!', ':', '[', ']', '>'
+    "/var/%s/app-%d.sock",             # percent signs
+    "/var/%(name)s/100%.sock",
+    "/run/u~1/app@host+1$RUN.sock",    # other punctuation
+)
+PUNCT_PORT_FORMS = ("pair-unix", "str-unix", "str-unix+pair")
+
+
+def punct_ports(form, path):
+    if form == "pair-unix":
+        return [[80, "unix:" + path]]
+    if form == "str-unix":
+        return ["80 unix:" + path]
+    return ["80 unix:" + path, [443, 8443]]
+
+
+_PLAIN_PATH = frozenset("abcdefghijklmnopqrstuvwxyzABCDEFGHIJKLMNOPQRSTUVWXYZ0123456789/._-")
+
+
+def unix_path_class(ports):
+    """structural class of the unix-socket target paths of a request: which kinds of characters outside
+    [A-Za-z0-9/._-] they contain ('' if none / no unix target)"""
+    out = set()
+    for p in ports:
+        loc = None
+        if isinstance(p, (list, tuple)) and len(p) == 2 and isinstance(p[1], str):
+            loc = p[1]
+        elif isinstance(p, str) and " " in p:
+            loc = p.split(" ", 1)[1]
+        if not loc or not loc.startswith("unix:"):
+            continue
+        odd = set(loc[5:]) - _PLAIN_PATH
+        if odd & set("{}"):
+            out.add("braces")
+        if "%" in odd:
+            out.add("percent")
+        if odd - set("{}%"):
+            out.add("other-punctuation")
+    return "+".join(sorted(out))
 
 
 def cookie(i):
@@ -247,6 +303,13 @@ def all_cells():
         yield {"route": "tor", "version": version, "key": key, "detach": detach, "single_hop": single,
                "auth": None, "clients": None, "ports_id": pl, "ports": PORT_LISTS[pl], "await_all": False,
                "tor_non_anonymous": tna}
+    # unix-socket target paths containing braces / percent signs / other punctuation legal in file names
+    for route, version, key, form, pi in itertools.product(
+            ROUTES, (2, 3), ("none", "discard", "bare", "prefixed"), PUNCT_PORT_FORMS, range(len(PUNCT_UNIX_PATHS))):
+        a = "b2" if route == "auth" else None
+        yield {"route": route, "version": version, "key": key, "detach": False, "single_hop": False,
+               "auth": a, "clients": auth_clients(a) if a else None, "ports_id": "punct:%s:%d" % (form, pi),
+               "ports": punct_ports(form, PUNCT_UNIX_PATHS[pi]), "await_all": False}
 
 
 # first characters taken from the character sets of "RSA1024:" / "ED25519-V3:" (base64 alphabet only)
@@ -363,6 +426,8 @@ def variant_class(cell):
         out.append("caller-mutates-arguments-after-call")
     if "tor_non_anonymous" in cell:
         out.append("tor-object-non-anonymous=%s+single_hop=%s" % (cell["tor_non_anonymous"], cell["single_hop"]))
+    if unix_path_class(cell.get("ports") or []):
+        out.append("unix-path-has-" + unix_path_class(cell["ports"]))
     return "+".join(out)
 
 
@@ -586,6 +651,8 @@ def run_cell(cell, rec, probe=False, ctx=None, objs=None, extra_class=None, inje
                 objs.setdefault("auth", auth_obj)
             if cell["key"] in ("bare", "prefixed"):
                 objs.setdefault("key", key_arg)
+        if unix_path_class(cell["ports"]):
+            rec.count("unix_path_punctuation_cells")
         o = aud.watch(d, "create")
         link.pump()
         turns = 0
@@ -696,6 +763,9 @@ def run_cell(cell, rec, probe=False, ctx=None, objs=None, extra_class=None, inje
                 rest.remove(hit)
                 alloc_left.remove(hit[1][2])
         rec.count("port_mappings_compared", len(parsed.ports))
+        if unix_path_class(cell["ports"]):
+            rec.count("unix_path_punctuation_cells_compared")
+            rec.seen("unix_path_punctuation_classes", unix_path_class(cell["ports"]))
         if not ports_ok:
             both = cell.get("async_port_lookup") and cell.get("caller_mutates_after_call")
             V("port-mappings-mismatch", {"requested": cell["ports"], "allocated_local_ports": allocated,
@@ -1049,6 +1119,13 @@ def random_cell(rnd):
         else:
             ports.append([v, "%s:%d" % (ip, lp)])
     cell["ports"] = ports
+    if rnd.random() < 0.3:
+        # a unix-socket target whose path has punctuation that is legal in file names (braces, percent, ...)
+        seg = "".join(rnd.choice("{}{}%$~@+!:[]ab01.") for _ in range(rnd.randint(1, 6)))
+        path = "/" + "".join(rnd.choice("abcxyz019._-") for _ in range(rnd.randint(0, 4))) + seg + "/s.sock"
+        v = rnd.choice([80, 443, rnd.randint(1, 65535)])
+        entry = [v, "unix:" + path] if rnd.random() < 0.5 else "%d unix:%s" % (v, path)
+        ports.insert(rnd.randint(0, len(ports)), entry)
     return cell
 
 
